@@ -1,5 +1,5 @@
 use crate::compiler::prelude::*;
-use crate::stdlib::ip_utils::to_key;
+use crate::stdlib::ip_utils::{to_key, to_pfx_key};
 use ipcrypt_rs::{Ipcrypt, IpcryptPfx};
 use std::net::IpAddr;
 
@@ -22,7 +22,7 @@ fn encrypt_ip(ip: &Value, key: Value, mode: &Value) -> Resolved {
             Ipcrypt::new(key).encrypt_ipaddr(ip_addr)
         }
         "pfx" => {
-            let key = to_key::<32>(key, "pfx", ip_ver_label)?;
+            let key = to_pfx_key(key, ip_ver_label)?;
             IpcryptPfx::new(key).encrypt_ipaddr(ip_addr)
         }
         other => {
